@@ -5,6 +5,8 @@ package config
 import (
 	"fmt"
 	"math/rand"
+	"net/http"
+	"net/http/httptest"
 	"os"
 	"runtime"
 	"sort"
@@ -117,20 +119,102 @@ func (tr *c27Trial) makeContent(file, class string) *c27Content {
 	return c
 }
 
+// c27Store is where the config and the rules live during a trial.
+type c27Store interface {
+	putC(b []byte) error
+	putR(b []byte) error
+	opts() *CmdEnv
+	cleanup()
+}
+
+type c27FileStore struct{ *c27Files }
+
+func (s c27FileStore) putC(b []byte) error { return s.put(s.cpath, b) }
+func (s c27FileStore) putR(b []byte) error { return s.put(s.rpath, b) }
+
+// c27HTTPStore serves the two documents over loopback HTTP (getBytesFor
+// supports http locations). It can hold ONE request for the rules document
+// until released, which keeps the Reload that issued it between its two reads
+// - from outside Reload.
+type c27HTTPStore struct {
+	mu       sync.Mutex
+	c, r     []byte
+	srv      *httptest.Server
+	hold     bool          // hold the next rules request
+	held     chan struct{} // closed when a rules request is being held
+	release  chan struct{} // close to let it go
+	cfgGets  atomic.Int32
+	rulesGet atomic.Int32
+}
+
+func c27NewHTTPStore() *c27HTTPStore {
+	s := &c27HTTPStore{held: make(chan struct{}), release: make(chan struct{})}
+	mux := http.NewServeMux()
+	mux.HandleFunc("/config.yaml", func(w http.ResponseWriter, _ *http.Request) {
+		s.cfgGets.Add(1)
+		s.mu.Lock()
+		b := s.c
+		s.mu.Unlock()
+		w.Header().Set("Content-Type", "application/yaml")
+		w.Write(b)
+	})
+	mux.HandleFunc("/rules.yaml", func(w http.ResponseWriter, _ *http.Request) {
+		s.rulesGet.Add(1)
+		s.mu.Lock()
+		holdThis := s.hold
+		s.hold = false
+		s.mu.Unlock()
+		if holdThis {
+			close(s.held)
+			<-s.release
+		}
+		s.mu.Lock()
+		b := s.r
+		s.mu.Unlock()
+		w.Header().Set("Content-Type", "application/yaml")
+		w.Write(b)
+	})
+	s.srv = httptest.NewServer(mux)
+	return s
+}
+
+func (s *c27HTTPStore) putC(b []byte) error { s.mu.Lock(); s.c = b; s.mu.Unlock(); return nil }
+func (s *c27HTTPStore) putR(b []byte) error { s.mu.Lock(); s.r = b; s.mu.Unlock(); return nil }
+func (s *c27HTTPStore) opts() *CmdEnv {
+	return &CmdEnv{ConfigLocations: []string{s.srv.URL + "/config.yaml"}, RulesLocations: []string{s.srv.URL + "/rules.yaml"}}
+}
+func (s *c27HTTPStore) cleanup() { s.srv.Close() }
+
 // c27RunTrial runs one history on a fresh fileConfig and returns the issues found.
-func c27RunTrial(rng *rand.Rand, mixed bool) (issues []c27Issue, reloads int, desc map[string]any, err error) {
+// mode "files": random overlap of two reloading goroutines and file writes.
+// mode "staged": the documents are served over HTTP and the first Reload is
+// held between its config read and its rules read while the config changes and
+// a second Reload is given the chance to run to completion; then the first one
+// continues with what it read before (the "stale read" interleaving of
+// MC_Reload_code_cex.cfg). If Reload calls are serialized the second one
+// cannot start reading; the driver notices that it did not (a bounded number
+// of scheduler yields, never a verdict) and lets the first one go on.
+func c27RunTrial(rng *rand.Rand, mixed bool, mode string) (issues []c27Issue, reloads int, desc map[string]any, err error) {
 	tr := &c27Trial{rng: rng, contents: map[string]*c27Content{}, byK: map[int]*c27Content{}}
-	files, err := c27NewFiles()
-	if err != nil {
-		return nil, 0, nil, err
+	var files c27Store
+	var hs *c27HTTPStore
+	if mode == "staged" {
+		hs = c27NewHTTPStore()
+		files = hs
+	} else {
+		f, ferr := c27NewFiles()
+		if ferr != nil {
+			return nil, 0, nil, ferr
+		}
+		files = c27FileStore{f}
 	}
 	defer files.cleanup()
 	curC, curR := tr.makeContent("c", "ok"), tr.makeContent("r", "ok")
 	initC, initR := curC, curR
-	if err = files.put(files.cpath, curC.bytes); err != nil {
+	if err = files.putC(curC.bytes); err != nil {
 		return
 	}
-	if err = files.put(files.rpath, curR.bytes); err != nil {
+	if err = files.putR(curR.bytes); err != nil {
 		return
 	}
 	cfg, nerr := NewConfig(files.opts(), c27Version)
@@ -151,11 +235,11 @@ func c27RunTrial(rng *rand.Rand, mixed bool) (issues []c27Issue, reloads int, de
 		if tr.rng.Intn(3) == 0 {
 			curR = tr.makeContent("r", rClasses[tr.rng.Intn(len(rClasses))])
 			tr.log = append(tr.log, fmt.Sprintf("writeR %s#%d", curR.class, curR.k))
-			return files.put(files.rpath, curR.bytes)
+			return files.putR(curR.bytes)
 		}
 		curC = tr.makeContent("c", cClasses[tr.rng.Intn(len(cClasses))])
 		tr.log = append(tr.log, fmt.Sprintf("writeC %s#%d", curC.class, curC.k))
-		return files.put(files.cpath, curC.bytes)
+		return files.putC(curC.bytes)
 	}
 
 	// a reader of the getters, all the time
@@ -179,6 +263,64 @@ func c27RunTrial(rng *rand.Rand, mixed bool) (issues []c27Issue, reloads int, de
 
 	rounds := 2 + tr.rng.Intn(3)
 	var werr error
+	if mode == "staged" {
+		rounds = 0
+		writeC := func(class string) {
+			curC = tr.makeContent("c", class)
+			tr.log = append(tr.log, fmt.Sprintf("writeC %s#%d", curC.class, curC.k))
+			files.putC(curC.bytes)
+		}
+		class := "ok"
+		if mixed {
+			class = "warn"
+		}
+		writeC("ok")
+		hs.mu.Lock()
+		hs.hold = true
+		hs.mu.Unlock()
+		p1done, p2done := make(chan struct{}), make(chan struct{})
+		go func() { defer close(p1done); cfg.Reload() }()
+		tr.log = append(tr.log, "Reload #1 starts, is held between its config read and its rules read")
+		select {
+		case <-hs.held:
+		case <-p1done: // Reload no longer reads the rules after the config: nothing to stage
+		}
+		writeC(class)
+		gets := hs.cfgGets.Load()
+		go func() { defer close(p2done); cfg.Reload() }()
+		tr.log = append(tr.log, "Reload #2 starts")
+		// give #2 the chance to read; if it does, to finish (bounded, only shapes the schedule)
+		reading := false
+		for i := 0; i < 2000000 && !reading; i++ {
+			select {
+			case <-p2done:
+				reading = true
+			default:
+				reading = hs.cfgGets.Load() > gets
+				runtime.Gosched()
+			}
+		}
+		if reading {
+			for i := 0; i < 50000000; i++ {
+				select {
+				case <-p2done:
+					i = 50000000
+				default:
+					runtime.Gosched()
+				}
+			}
+		}
+		select {
+		case <-p2done:
+			tr.log = append(tr.log, "Reload #2 returned; Reload #1 released")
+		default:
+			tr.log = append(tr.log, "Reload #2 has not read anything (serialized); Reload #1 released")
+		}
+		close(hs.release)
+		<-p1done
+		<-p2done
+		tr.reloads += 2
+	}
 	for round := 0; round < rounds && werr == nil; round++ {
 		if tr.rng.Intn(4) != 0 {
 			werr = write()
@@ -375,11 +517,15 @@ func TestVerifC27Concurrent(t *testing.T) {
 	rng := rand.New(rand.NewSource(seed))
 	deadline := time.Now().Add(time.Duration(budget * float64(time.Second)))
 	trials, reloads := 0, 0
-	var violations, samples []any
+	violations, samples := []any{}, []any{}
 	knownHits := map[string]int{}
 	knownExample := map[string]map[string]any{}
 	for trials < maxTrials && (trials < 6 || time.Now().Before(deadline)) && len(violations) < 5 {
-		issues, n, desc, err := c27RunTrial(rng, trials%3 == 2)
+		mode := "files"
+		if trials%4 == 1 {
+			mode = "staged"
+		}
+		issues, n, desc, err := c27RunTrial(rng, trials%3 == 2, mode)
 		if err != nil {
 			fail(err)
 		}
